@@ -92,17 +92,21 @@ def print_assumptions(prop, work):
 
 
 # ----------------------------------------------------------------------------------------- implementation side
-def run_workers(prop, cases, hashseed, work, tag):
-    """Run the implementation on all cases (in parallel chunks) with the given PYTHONHASHSEED."""
+RECYCLE_CHUNK = 20
+
+
+def run_workers(prop, cases, hashseed, work, tag, recycle=False):
+    """Run the implementation on all cases (in parallel chunks) with the given PYTHONHASHSEED.
+    recycle: the library objects of a chunk are re-used from case to case (refilled in place, see conv.py); chunks of RECYCLE_CHUNK cases."""
     n = len(cases)
     if n == 0:
         return []
     nchunks = min(NPROC, max(1, n // 8))
-    size = (n + nchunks - 1) // nchunks
+    size = RECYCLE_CHUNK if recycle else (n + nchunks - 1) // nchunks
     chunks = [cases[i:i + size] for i in range(0, n, size)]
     env = dict(os.environ)
     env.update({'PYTHONHASHSEED': str(hashseed), 'PYTHONPATH': REPO_SRC, 'PYTHONDONTWRITEBYTECODE': '1', 'GT_SRC': REPO_SRC,
-                'GAMBATOOLS_VERIF': '1', 'VERIF_WORK': work, 'TMPDIR': work})
+                'GAMBATOOLS_VERIF': '1', 'VERIF_WORK': work, 'TMPDIR': work, 'VERIF_RECYCLE': '1' if recycle else '0'})
 
     def one(i):
         fin = os.path.join(work, 'in_%s_%d.json' % (tag, i))
@@ -199,8 +203,8 @@ def load_known():
     return json.load(open(p))
 
 
-def evaluate(mod, prop, cases, seed, work, tag):
-    obs = run_workers(prop, cases, seed, work, tag)
+def evaluate(mod, prop, cases, seed, work, tag, recycle=False):
+    obs = run_workers(prop, cases, seed, work, tag, recycle=recycle)
     terms = [mod.encode(c, o) for c, o in zip(cases, obs)]
     fails = coq_eval(mod, terms, work, tag)
     return obs, fails
@@ -243,7 +247,8 @@ def main():
     work = os.path.join(VERIF, '.work', '%s-%d' % (prop, os.getpid()))
     os.makedirs(work, exist_ok=True)
     atexit.register(lambda: shutil.rmtree(work, ignore_errors=True))
-    os.makedirs(os.path.join(VERIF, 'evidence'), exist_ok=True)
+    EVID = os.environ.get('VERIF_EVIDENCE_DIR') or os.path.join(VERIF, 'evidence')     # runs against seeded changes write their evidence elsewhere
+    os.makedirs(EVID, exist_ok=True)
     os.makedirs(os.path.join(VERIF, 'replays'), exist_ok=True)
 
     # --- 1. theorems
@@ -271,7 +276,12 @@ def main():
             sys.exit(0 if proofs_ok else 1)
         case = rp['case']
         hs = rp.get('hashseed', 0)
-        obs, fails = evaluate(mod, prop, [case], hs, work, 'replay')
+        if rp.get('recycle'):
+            seq = rp.get('predecessors', []) + [case]
+            obs, fails = evaluate(mod, prop, seq, hs, work, 'replay', recycle=True)
+            obs, fails = obs[-1:], [(0, c) for i, c in fails if i == len(seq) - 1]
+        else:
+            obs, fails = evaluate(mod, prop, [case], hs, work, 'replay')
         print('observation:', json.dumps(obs[0])[:2000])
         if fails:
             print('still failing: code %d (%s)' % (fails[0][1], mod.CODES.get(fails[0][1], '?')))
@@ -302,6 +312,27 @@ def main():
             else:
                 all_fails.append((hs, i, c))
 
+    # --- object-recycling pass: a sample of the cases is run again, in chunks, with the library objects of a chunk refilled in
+    #     place from case to case (conv.py); anything the library remembers per object is then stale
+    recycle_info = None
+    rec_cases, rec_index = [], []
+    if getattr(mod, 'RECYCLE', True) and os.environ.get('VERIF_NO_RECYCLE') != '1':
+        limit = int(os.environ.get('VERIF_RECYCLE_CASES', '240' if tier == 'quick' else '4000'))
+        idx = list(range(len(cases)))
+        if len(idx) > limit:
+            idx = sorted(random.Random(seed0 + 77).sample(idx, limit))
+        random.Random(seed0 + 78).shuffle(idx)         # neighbours in a chunk should be unrelated objects
+        rec_index = idx
+        rec_cases = [cases[i] for i in idx]
+        robs, rfails = evaluate(mod, prop, rec_cases, seeds[0], work, 'rec', recycle=True)
+        obs_by_seed['recycle'] = {i: o for i, o in zip(idx, robs)}
+        for j, c in rfails:
+            if c == 1:
+                continue
+            # only what fails here but not in the ordinary pass of the same hash seed is attributed to recycling
+            if not any(h == seeds[0] and i == idx[j] for h, i, _ in all_fails):
+                all_fails.append(('recycle', idx[j], c))
+        recycle_info = {'cases': len(idx), 'chunk': RECYCLE_CHUNK}
     # --- values that must not depend on the hash seed (C19): compared across the runs
     if hasattr(mod, 'stable_values') and len(seeds) > 1:
         base = obs_by_seed[seeds[0]]
@@ -359,6 +390,21 @@ def main():
             replay_paths.append(rp)
             nfif.add(rp)
             continue
+        if hs == 'recycle':
+            j = rec_index.index(i)
+            start = (j // RECYCLE_CHUNK) * RECYCLE_CHUNK
+            h = hashlib.sha256(json.dumps(cases[i], sort_keys=True).encode()).hexdigest()[:8]
+            rp = os.path.join(VERIF, 'replays', '%s-%s-seq.json' % (prop, h))
+            with open(rp, 'w') as f:
+                json.dump({'property': prop, 'kind': 'failing-input', 'code': c, 'meaning': mod.CODES.get(c, ''), 'signature': sig, 'hashseed': seeds[0],
+                           'recycle': True, 'note': 'call sequence in ONE process: the predecessors are run first, every library object is the object of the '
+                           'previous case refilled in place (harness/conv.py); the last case is the one judged', 'predecessors': rec_cases[start:j],
+                           'case': cases[i], 'observed': obs_by_seed['recycle'][i],
+                           'readable': mod.describe(cases[i]) if hasattr(mod, 'describe') else None,
+                           'replay_cmd': './check %s --replay %s' % (prop, rp)}, f, indent=1, ensure_ascii=False)
+            if rp not in replay_paths:
+                replay_paths.append(rp)
+            continue
         small = shrink(mod, prop, cases[i], c, hs, work)
         obs1, fails1 = evaluate(mod, prop, [small], hs, work, 'final')
         if not fails1:
@@ -415,8 +461,8 @@ def main():
             'checker_cmd': 'make -C coq -f Makefile.coq theories/Properties/%s.vo && coqc Properties/%s.v (Print Assumptions) && coqc cases_*.v (vm_compute judge)' % (prop, prop),
             'trusted_base': TRUSTED_BASE + getattr(mod, 'TRUSTED_EXTRA', []),
             'print_assumptions': pa, 'forbidden_tokens_found': bad, 'coqchk': coqchk_summary,
-            'evaluations': len(cases) * len(seeds), 'distinct_nontrivial': nontriv,
-            'rule': mod.RULE, 'hashseeds': seeds, 'corpus_cases': len(corpus),
+            'evaluations': len(cases) * len(seeds) + (recycle_info or {}).get('cases', 0), 'distinct_nontrivial': nontriv,
+            'rule': mod.RULE + (' One extra pass re-runs a sample of the cases with the library objects refilled in place from case to case (object recycling, harness/conv.py): results remembered per object are then stale.' if recycle_info else ''), 'hashseeds': seeds, 'corpus_cases': len(corpus), 'object_recycling_pass': recycle_info,
             'structural_layer_only_mismatches': struct_only,
             'known_findings_hit': {k: v[1] for k, v in known_hits.items()},
             'distribution': dist, 'samples': samples,
@@ -424,7 +470,7 @@ def main():
         },
         'assumptions': getattr(mod, 'ASSUMPTIONS', []),
     }
-    with open(os.path.join(VERIF, 'evidence', prop + '.json'), 'w') as f:
+    with open(os.path.join(EVID, prop + '.json'), 'w') as f:
         json.dump(ev, f, indent=1, ensure_ascii=False)
 
     print('%s tier=%s: %d theorems (%d discharged), %d cases x %d hash seeds, %d non-trivial distinct, %d structural-only, %d violations, %.1fs'
@@ -440,4 +486,22 @@ def main():
 
 
 if __name__ == '__main__':
-    main()
+    try:
+        main()
+    except SystemExit:
+        raise
+    except BaseException:
+        # The correspondence could not be evaluated at all (the implementation made the observation code or the judge fail in a way
+        # that does not happen on the pinned tree).  The property is then not shown to hold: reported as a violation without a failing
+        # input, naming what broke (never silently, never as a bare non-zero exit).
+        import traceback
+        tb = traceback.format_exc()
+        print(tb)
+        prop = next((a for a in sys.argv[1:] if re.fullmatch(r'C\d\d', a)), 'unknown')
+        rp = os.path.join(VERIF, 'replays', '%s-correspondence.json' % prop)
+        os.makedirs(os.path.dirname(rp), exist_ok=True)
+        with open(rp, 'w') as f:
+            json.dump({'property': prop, 'kind': 'no-failing-input-found', 'broken': 'the correspondence run of %s could not be completed' % prop,
+                       'traceback': tb[-4000:]}, f, indent=1)
+        print('VIOLATION property=%s replay=%s no-failing-input-found' % (prop, rp))
+        sys.exit(1)
